@@ -149,13 +149,13 @@ func collect(v reflect.Value, p per.Params, path string, r *rand.Rand, out *[]si
 				if f := v.Field(present); f.Kind() == reflect.Ptr && !f.IsNil() {
 					add("CHOICE whose selected alternative is nil", func() { f.Set(reflect.Zero(f.Type())) })
 				}
-				fp, _ := per.ParseTag(t.Field(present).Tag.Get("aper"))
+				fp, _ := per.ParseTag(per.FieldTag(t, present))
 				collect(v.Field(present), fp, path+"."+t.Field(present).Name, r, out)
 			}
 			return
 		}
 		for i := 0; i < t.NumField(); i++ {
-			fp, _ := per.ParseTag(t.Field(i).Tag.Get("aper"))
+			fp, _ := per.ParseTag(per.FieldTag(t, i))
 			f := v.Field(i)
 			name := path + "." + t.Field(i).Name
 			if f.Kind() == reflect.Ptr && f.IsNil() {
@@ -174,7 +174,7 @@ func collect(v reflect.Value, p per.Params, path string, r *rand.Rand, out *[]si
 						idf := v.Field(j)
 						cur := int64(0)
 						if present >= 1 && present < vt.NumField() {
-							ap, _ := per.ParseTag(vt.Field(present).Tag.Get("aper"))
+							ap, _ := per.ParseTag(per.FieldTag(vt, present))
 							cur = bound(ap.RefFieldValue, 0)
 						}
 						*out = append(*out, site{name + ": open type whose identifier does not match the value", "open type whose identifier does not match the value", func() {
@@ -188,7 +188,7 @@ func collect(v reflect.Value, p per.Params, path string, r *rand.Rand, out *[]si
 				}
 				*out = append(*out, site{name + ": open type with Present=0", "open type with Present=", func() { val.Field(0).SetInt(0) }})
 				if present >= 1 && present < vt.NumField() {
-					ap, _ := per.ParseTag(vt.Field(present).Tag.Get("aper"))
+					ap, _ := per.ParseTag(per.FieldTag(vt, present))
 					ap.RefFieldValue = nil
 					collect(val.Field(present), ap, name+"."+vt.Field(present).Name, r, out)
 				}
